@@ -18,7 +18,7 @@ LABELS = ['A', 'B', 'C']
 
 def pre_build():
     import translate
-    return [translate.gen_formulas_c05(), translate.gen_rates()]
+    return [translate.gen_formulas_c05(), translate.gen_rates(), translate.gen_occupancy()]
 
 
 def gen_cases(rng, tier):
